@@ -54,7 +54,7 @@ func (vin) Size() (int, int) { return 120, 25 }
 
 type vout struct{ io.Writer }
 
-func (vout) Size() (int, int)  { return 120, 25 }
+func (vout) Size() (int, int) { return 120, 25 }
 func (vout) IsTerminal() bool { return false }
 
 type vos struct {
@@ -68,14 +68,14 @@ func (o *vos) Platform() interp.Platform { return interp.Platform{} }
 func (o *vos) Stdin() interp.Input {
 	return vin{FileReader: interp.FileReader{R: bytes.NewBuffer(nil)}}
 }
-func (o *vos) Stdout() interp.Output                            { return vout{o.stdout} }
-func (o *vos) Stderr() interp.Output                            { return vout{o.stderr} }
-func (o *vos) InterruptChan() chan struct{}                     { return nil }
-func (o *vos) Environ() []string                                { return nil }
-func (o *vos) Args() []string                                   { return o.args }
-func (o *vos) ConfigDir() (string, error)                       { return "/config", nil }
-func (o *vos) FS() fs.FS                                        { return o.files }
-func (o *vos) History() ([]string, error)                       { return nil, nil }
+func (o *vos) Stdout() interp.Output                             { return vout{o.stdout} }
+func (o *vos) Stderr() interp.Output                             { return vout{o.stderr} }
+func (o *vos) InterruptChan() chan struct{}                      { return nil }
+func (o *vos) Environ() []string                                 { return nil }
+func (o *vos) Args() []string                                    { return o.args }
+func (o *vos) ConfigDir() (string, error)                        { return "/config", nil }
+func (o *vos) FS() fs.FS                                         { return o.files }
+func (o *vos) History() ([]string, error)                        { return nil, nil }
 func (o *vos) Readline(opts interp.ReadlineOpts) (string, error) { return "", io.EOF }
 
 // the observation program: everything fieldFlows exposes about the flows, read through jq;
@@ -225,47 +225,70 @@ func parseObs(line string) (name string, obs *fqObs, err error) {
 
 // traceEvent is a ReassembledSG call or the flush marker (conn < 0).
 type traceEvent struct {
-	flush bool
-	call  flowsdecoder.VerifC19Call
+	flush      bool
+	newSection bool
+	call       flowsdecoder.VerifC19Call
 }
 
 type traceObs struct {
 	events []traceEvent
-	// what the traced Decoder holds afterwards (the same structure fieldFlows reads)
-	conns [][2]fqDir
-	reasm [][]byte
+	// what the traced Decoders hold afterwards (the same structure fieldFlows reads), per section
+	sections []fqSection
 }
 
 // runTrace feeds the frames to a traced flowsdecoder.Decoder through the dispatch table of
-// format/pcap/shared.go, then flushes once — the usage of decodePcap / decodePcapng.
-func runTrace(k *kase) (t *traceObs, err error) {
+// format/pcap/shared.go, then flushes once — the usage of decodePcap / decodePcapng: a new decoder for
+// every section. merged: fq reported ONE section for a file with several section header blocks (what it does
+// when section_length is -1): then one decoder sees all packets, and the interface id of a packet indexes
+// the interface descriptions of all sections read so far.
+func runTrace(k *kase, merged bool) (t *traceObs, err error) {
 	defer func() {
 		if r := recover(); r != nil {
 			err = fmt.Errorf("panic: %v", r)
 		}
 	}()
 	t = &traceObs{}
-	fd := flowsdecoder.VerifC19NewTraced(flowsdecoder.DecoderOptions{CheckTCPOptions: false}, func(c flowsdecoder.VerifC19Call) {
-		t.events = append(t.events, traceEvent{call: c})
-	})
-	frames, ifaces := k.frames()
-	for i, fr := range frames {
-		if fn, ok := pcap.VerifC19LinkFn(int(linkNum[k.links[ifaces[i]]])); ok {
-			_ = fn(fd, fr)
+	frames, ifaces, flinks := k.frames()
+	secs := k.sections()
+	if merged {
+		var table []string
+		flinks = append([]string(nil), flinks...)
+		for si, r := range secs {
+			table = append(table, k.linksOf(si)...)
+			for i := r[0]; i < r[1]; i++ {
+				flinks[i] = table[ifaces[i]]
+			}
 		}
+		secs = [][2]int{{0, len(k.pkts)}}
 	}
-	t.events = append(t.events, traceEvent{flush: true})
-	fd.Flush()
-	for _, c := range fd.TCPConnections {
-		var cd [2]fqDir
-		for i, d := range []*flowsdecoder.TCPDirection{c.Client, c.Server} {
-			cd[i] = fqDir{ip: d.Endpoint.IP.String(), port: d.Endpoint.Port, skipped: d.SkippedBytes, start: d.HasStart, end: d.HasEnd,
-				stream: append([]byte(nil), d.Buffer.Bytes()...)}
+	for si, r := range secs {
+		if si > 0 {
+			t.events = append(t.events, traceEvent{newSection: true})
 		}
-		t.conns = append(t.conns, cd)
-	}
-	for _, r := range fd.IPV4Reassembled {
-		t.reasm = append(t.reasm, r.Datagram)
+		// decodePcapng: a new flows decoder per section, flushed at the end of the section
+		fd := flowsdecoder.VerifC19NewTraced(flowsdecoder.DecoderOptions{CheckTCPOptions: false}, func(c flowsdecoder.VerifC19Call) {
+			t.events = append(t.events, traceEvent{call: c})
+		})
+		for i := r[0]; i < r[1]; i++ {
+			if fn, ok := pcap.VerifC19LinkFn(int(linkNum[flinks[i]])); ok {
+				_ = fn(fd, frames[i])
+			}
+		}
+		t.events = append(t.events, traceEvent{flush: true})
+		fd.Flush()
+		var sec fqSection
+		for _, c := range fd.TCPConnections {
+			var cd [2]fqDir
+			for i, d := range []*flowsdecoder.TCPDirection{c.Client, c.Server} {
+				cd[i] = fqDir{ip: d.Endpoint.IP.String(), port: d.Endpoint.Port, skipped: d.SkippedBytes, start: d.HasStart, end: d.HasEnd,
+					stream: append([]byte(nil), d.Buffer.Bytes()...)}
+			}
+			sec.conns = append(sec.conns, cd)
+		}
+		for _, r := range fd.IPV4Reassembled {
+			sec.reasm = append(sec.reasm, r.Datagram)
+		}
+		t.sections = append(t.sections, sec)
 	}
 	return t, nil
 }
